@@ -1,9 +1,57 @@
-(* C02: every cell of the unvalued balance report equals the independent ledger computation *)
+(* C02: every cell of the unvalued balance report equals the independent ledger computation.
+   The spec verdict compares the binary's CSV with Spec.LedgerSpec.ledger_csv in three steps:
+   the header; the SET of rows in both directions (a ledger row that the report does not have, a
+   report row that no ledger row explains; rows are named with the full account path that
+   Spec.BalanceTableSpec.ledger_row_paths gives); then every line and cell of every row. *)
 open Drv_util
 open Drv_journal
 
 let rows_to_string (rows : K.z list list list) : string =
   String.concat "\n" (List.map (fun r -> String.concat "," (List.map string_of_str r)) rows)
+
+(* a block = the lines of one row: the first line carries the name, the others have an empty first field *)
+let blocks (lines : string list list) : (string * string list list) list =
+  let rec go acc cur = function
+    | [] -> List.rev (match cur with None -> acc | Some (n, ls) -> (n, List.rev ls) :: acc)
+    | l :: rest ->
+      let name = match l with x :: _ -> x | [] -> "" in
+      if name <> "" || cur = None then
+        go (match cur with None -> acc | Some (n, ls) -> (n, List.rev ls) :: acc) (Some (name, [l])) rest
+      else (match cur with Some (n, ls) -> go acc (Some (n, l :: ls)) rest | None -> go acc None rest) in
+  go [] None lines
+
+let path_string (a : K.z list list) : string = String.concat ":" (List.map string_of_str a)
+
+(* both directions of the row set; [exp] carries the ledger's display names (full path for account rows) *)
+let rec diff_rows (prev : string) (exp : (string * string) list) (got : string list) : string option =
+  match exp, got with
+  | [], [] -> None
+  | (_, full) :: _, [] -> Some (Printf.sprintf "rows: ledger row `%s` is missing from the report (report ends after `%s`)" full prev)
+  | [], g :: _ -> Some (Printf.sprintf "rows: report row `%s` (after `%s`) is not explained by any ledger row" g prev)
+  | (n, full) :: exp', g :: got' ->
+    if n = g then diff_rows full exp' got'
+    else if List.exists (fun (n', _) -> n' = g) exp' then
+      Some (Printf.sprintf "rows: ledger row `%s` is missing from the report (report has `%s` after `%s`)" full g prev)
+    else Some (Printf.sprintf "rows: report row `%s` (after `%s`) is not explained by any ledger row (ledger has `%s` there)" g prev full)
+
+let rec diff_cells (header : string list) (full : string) (el : string list list) (gl : string list list) : string option =
+  match el, gl with
+  | [], [] -> None
+  | e :: _, [] -> Some (Printf.sprintf "cell row `%s`: ledger line `%s` missing from the report" full (String.concat "," e))
+  | [], g :: _ -> Some (Printf.sprintf "cell row `%s`: report line `%s` not in the ledger computation" full (String.concat "," g))
+  | e :: el', g :: gl' ->
+    if e = g then diff_cells header full el' gl'
+    else begin
+      let com = match e with _ :: c :: _ -> c | _ -> "" in
+      let rec first i a b = match a, b with
+        | x :: a', y :: b' ->
+          if x = y then first (i + 1) a' b'
+          else Printf.sprintf "column %s: ledger `%s` report `%s`" (try List.nth header i with _ -> string_of_int i) x y
+        | x :: _, [] -> Printf.sprintf "column %d: ledger `%s` report <missing>" i x
+        | [], y :: _ -> Printf.sprintf "column %d: ledger <missing> report `%s`" i y
+        | [], [] -> "?" in
+      Some (Printf.sprintf "cell row `%s` commodity `%s` %s" full com (first 0 e g))
+    end
 
 let () =
   register "C02.bal" (fun inp obs ->
@@ -16,22 +64,38 @@ let () =
       | Some csv ->
         (match K.parse_directives (decode_journal j) with
          | K.MOk ds ->
-           (match K.ledger_csv cfg.bc ds with
-            | Some rows ->
-              let expected = rows_to_string rows in
-              let got = String.concat "\n" (List.filter (fun l -> l <> "") (String.split_on_char '\n' csv)) in
-              if expected = got then "ok"
-              else begin
-                (* first differing line, for the replay file *)
-                let el = String.split_on_char '\n' expected and gl = String.split_on_char '\n' got in
-                let rec first i a b = match a, b with
-                  | x :: a', y :: b' -> if x = y then first (i + 1) a' b' else Printf.sprintf "line %d: ledger `%s` report `%s`" i x y
-                  | x :: _, [] -> Printf.sprintf "line %d: ledger `%s` report <missing>" i x
-                  | [], y :: _ -> Printf.sprintf "line %d: ledger <missing> report `%s`" i y
-                  | [], [] -> "?" in
-                "FAIL:cell " ^ first 1 el gl
-              end
-            | None -> "FAIL:ledger computation undefined but a report was printed")
+           (match K.ledger_csv cfg.bc ds, K.ledger_row_paths cfg.bc ds with
+            | Some rows, Some (al_paths, eie_paths) ->
+              let exp_lines = List.map (List.map string_of_str) rows in
+              let got_lines = List.filter_map (fun l -> if l = "" then None else Some (String.split_on_char ',' l))
+                                (String.split_on_char '\n' csv) in
+              (match exp_lines, got_lines with
+               | eh :: erest, gh :: grest ->
+                 if eh <> gh then Printf.sprintf "FAIL:header: ledger `%s` report `%s`" (String.concat "," eh) (String.concat "," gh)
+                 else begin
+                   let eb = blocks erest and gb = blocks grest in
+                   (* the ledger's blocks in order: A/L rows, Total (A+L), E/I/E rows, Total (E+I+E), Delta *)
+                   let fulls = List.map path_string al_paths @ ["Total (A+L)"] @ List.map path_string eie_paths @ ["Total (E+I+E)"; "Delta"] in
+                   if List.length fulls <> List.length eb then "FAIL:ledger_csv and ledger_row_paths disagree on the number of rows"
+                   else begin
+                     let exp_named = List.map2 (fun (n, _) full -> (n, full)) eb fulls in
+                     match diff_rows "Account" exp_named (List.map fst gb) with
+                     | Some m -> "FAIL:" ^ m
+                     | None ->
+                       let rec cells ebs gbs fs = match ebs, gbs, fs with
+                         | (_, el) :: ebs', (_, gl) :: gbs', f :: fs' ->
+                           (match diff_cells eh f el gl with Some m -> Some m | None -> cells ebs' gbs' fs')
+                         | _, _, _ -> None in
+                       (match cells eb gb fulls with
+                        | Some m -> "FAIL:" ^ m
+                        | None ->
+                          (* belt and braces: the whole text once more *)
+                          if rows_to_string rows = String.concat "\n" (List.filter (fun l -> l <> "") (String.split_on_char '\n' csv))
+                          then "ok" else "FAIL:cell CSV differs from ledger_csv")
+                   end
+                 end
+               | _, _ -> "FAIL:header missing")
+            | _, _ -> "FAIL:ledger computation undefined but a report was printed")
          | _ -> "FAIL:journal rejected by the model's directive conversion but a report was printed")
     in
     (model, spec))
